@@ -6,6 +6,10 @@
   `schema_compiler::compile` through `fs_provider`, with the k-th
   mkdir/open/write/close failing or writing short), and about the
   nondeterminism sources the translator looks for in the sbeppc sources.
+
+  `fs_provider::write_file` closes the stream and inspects its state since the
+  `fix:` commit "sbeppc fails when a generated file cannot be written
+  completely"; the full-strength statements hold (they were refuted before).
 -/
 import Sbepp.Gen.Files
 import Sbepp.Lemmas.Files
@@ -16,51 +20,11 @@ open Sbepp.Gen.Files
 
 /-! ## exit 0 ⇒ every file complete -/
 
-/-- **exit0_all_files_complete** (full strength): whatever fails, exit status 0
-    means that every expected file holds exactly its content. -/
-def exit0_all_files_complete : Prop :=
-  ∀ (plan : Plan) (sched : Schedule) (disk : Disk), (paths plan.files).Nodup →
-    (run plan sched disk).exit = 0 → ∀ pc ∈ plan.files, (run plan sched disk).disk.has pc.1 pc.2
-
-def plan2 : Plan :=
-  { dirs := ["out", "out/s", "out/s/schema", "out/s/types", "out/s/messages"],
-    files := [("out/s/types/T.hpp", [1, 2, 3, 4]), ("out/s/schema/schema.hpp", [5, 6]), ("out/s/s.hpp", [7, 8, 9])] }
-
-/-- witness: the first `write` fails (disk full).  `write_file` does not look at
-    the stream after `<<`: exit 0, and `T.hpp` is empty. -/
-theorem witness_first_write_fails :
-    run plan2 (single .write 1 .fail) {} =
-      ⟨0, false,
-       { dirs := ["out", "out/s", "out/s/schema", "out/s/types", "out/s/messages"],
-         files := [("out/s/s.hpp", [7, 8, 9]), ("out/s/schema/schema.hpp", [5, 6]), ("out/s/types/T.hpp", [])] },
-       [(.write, 1)]⟩ := by decide +kernel
-
-/-- witness: a short write followed by a full disk leaves half a file, exit 0 -/
-theorem witness_short_write :
-    (run plan2 (single .write 1 .shortfail) {}).exit = 0 ∧
-    (run plan2 (single .write 1 .shortfail) {}).disk.get "out/s/types/T.hpp" = some [1, 2] := by decide +kernel
-
-/-- a short write alone is retried by libstdc++ and the file is complete -/
-theorem short_write_is_retried :
-    (run plan2 (single .write 1 .short) {}).exit = 0 ∧
-    (run plan2 (single .write 1 .short) {}).disk.get "out/s/types/T.hpp" = some [1, 2, 3, 4] ∧
-    (run plan2 (single .write 1 .short) {}).fired = [(.write, 1)] := by decide +kernel
-
-theorem exit0_all_files_complete_false : ¬ exit0_all_files_complete := by
-  intro h
-  have := h plan2 (single .write 1 .fail) {} (by decide) (by rw [witness_first_write_fails])
-    ("out/s/types/T.hpp", [1, 2, 3, 4]) (by decide)
-  rw [witness_first_write_fails] at this
-  unfold Disk.has Disk.get at this
-  revert this
-  decide
-
-/-- **exit0_all_files_complete_partial**: if no `write` call is hit (failures
-    of mkdir, open and close may happen at will), exit 0 implies that every
-    expected file has exactly its content. -/
-theorem exit0_all_files_complete_partial (plan : Plan) (sched : Schedule) (disk : Disk)
-    (hw : ∀ k, sched .write k = none) (hnd : (paths plan.files).Nodup)
-    (h0 : (run plan sched disk).exit = 0) :
+/-- **exit0_all_files_complete**: whatever fails or is cut short, in whatever
+    combination, exit status 0 means that every expected file holds exactly its
+    content. -/
+theorem exit0_all_files_complete (plan : Plan) (sched : Schedule) (disk : Disk)
+    (hnd : (paths plan.files).Nodup) (h0 : (run plan sched disk).exit = 0) :
     ∀ pc ∈ plan.files, (run plan sched disk).disk.has pc.1 pc.2 := by
   unfold run at h0 ⊢
   cases hm : mkdirs sched plan.dirs { disk := disk } with
@@ -77,39 +41,53 @@ theorem exit0_all_files_complete_partial (plan : Plan) (sched : Schedule) (disk 
         | false => simp at h0
         | true =>
           simp only []
-          have := (writeFiles_complete sched hw plan.files st hnd (by rw [hf])).1
+          have := (writeFiles_complete sched plan.files st hnd (by rw [hf])).1
           rw [hf] at this
           exact this
 
-example : (∀ k, single .open 2 .fail .write k = none) ∧ (paths plan2.files).Nodup ∧
-    (run plan2 (single .close 2 .fail) {}).exit = 0 := by
-  refine ⟨fun k => by simp [single], by decide, by decide +kernel⟩
+def plan2 : Plan :=
+  { dirs := ["out", "out/s", "out/s/schema", "out/s/types", "out/s/messages"],
+    files := [("out/s/types/T.hpp", [1, 2, 3, 4]), ("out/s/schema/schema.hpp", [5, 6]), ("out/s/s.hpp", [7, 8, 9])] }
+
+def allDirs : List String := ["out", "out/s", "out/s/schema", "out/s/types", "out/s/messages"]
+
+/-- the first `write` fails (disk full): exit 1 with a diagnostic; the truncated
+    file stays behind, later files are not attempted -/
+theorem first_write_fails :
+    run plan2 (single .write 1 .fail) {} =
+      ⟨1, true, { dirs := allDirs, files := [("out/s/types/T.hpp", [])] }, [(.write, 1, .fail)]⟩ := by decide +kernel
+
+/-- a short write followed by a full disk: exit 1, half a file on disk -/
+theorem short_write_then_full_disk :
+    run plan2 (single .write 1 .shortfail) {} =
+      ⟨1, true, { dirs := allDirs, files := [("out/s/types/T.hpp", [1, 2])] }, [(.write, 1, .shortfail)]⟩ := by
+  decide +kernel
+
+/-- a short write alone is retried by libstdc++: exit 0 and the file is complete -/
+theorem short_write_is_retried :
+    (run plan2 (single .write 1 .short) {}).exit = 0 ∧
+    (run plan2 (single .write 1 .short) {}).disk.get "out/s/types/T.hpp" = some [1, 2, 3, 4] ∧
+    (run plan2 (single .write 1 .short) {}).fired = [(.write, 1, .short)] := by decide +kernel
+
+/-- a failing `close` (the last chance to learn about a write-back error) is reported -/
+theorem close_fails :
+    (run plan2 (single .close 2 .fail) {}).exit = 1 ∧ (run plan2 (single .close 2 .fail) {}).diag = true ∧
+    (run plan2 (single .close 2 .fail) {}).fired = [(.close, 2, .fail)] := by decide +kernel
+
+/-- non-vacuity of `exit0_all_files_complete`: faults that are survived -/
+example : (paths plan2.files).Nodup ∧ (run plan2 (single .write 3 .short) {}).exit = 0 ∧
+    (run plan2 noFaults {}).exit = 0 := by
+  refine ⟨by decide, by decide +kernel, by decide +kernel⟩
 
 /-! ## a failing call gives a diagnostic -/
 
-/-- **fault_gives_diag** (full strength): if any call failed, sbeppc exits
-    non-zero with a diagnostic. -/
-def fault_gives_diag : Prop :=
-  ∀ (plan : Plan) (sched : Schedule) (disk : Disk),
-    (run plan sched disk).fired ≠ [] → (run plan sched disk).exit = 1 ∧ (run plan sched disk).diag = true
-
-theorem fault_gives_diag_false : ¬ fault_gives_diag := by
-  intro h
-  have := (h plan2 (single .write 1 .fail) {} (by rw [witness_first_write_fails]; decide)).1
-  rw [witness_first_write_fails] at this
-  cases this
-
-/-- also a failing `close` (the last chance to learn about a write-back error) goes unnoticed -/
-theorem witness_close_fails :
-    (run plan2 (single .close 1 .fail) {}).exit = 0 ∧ (run plan2 (single .close 1 .fail) {}).fired = [(.close, 1)] := by
-  decide +kernel
-
-/-- **fault_gives_diag_partial**: exit status and diagnostic are exactly "a
-    mkdir or an open failed": those failures are always reported, and nothing
-    else ever is. -/
-theorem fault_gives_diag_partial (plan : Plan) (sched : Schedule) (disk : Disk) :
+/-- **fault_gives_diag**: sbeppc exits 1 with a diagnostic exactly when some
+    call returned an error — a failing mkdir, open, write or close, or a write
+    cut short by a disk that stays full; a short count that the retry completes
+    is not an error.  Exit status is 0 otherwise. -/
+theorem fault_gives_diag (plan : Plan) (sched : Schedule) (disk : Disk) :
     ((run plan sched disk).exit = 1 ∧ (run plan sched disk).diag = true ↔
-      ∃ f ∈ (run plan sched disk).fired, f.1 = Family.mkdir ∨ f.1 = Family.open) ∧
+      ∃ f ∈ (run plan sched disk).fired, IsError f) ∧
     ((run plan sched disk).exit = 0 ∨ (run plan sched disk).exit = 1) := by
   unfold run
   cases hm : mkdirs sched plan.dirs { disk := disk } with
@@ -119,8 +97,7 @@ theorem fault_gives_diag_partial (plan : Plan) (sched : Schedule) (disk : Disk) 
     cases ok with
     | false =>
       simp only []
-      obtain ⟨k, hk⟩ := ms.2.2 rfl
-      exact ⟨⟨fun _ => ⟨_, hk, Or.inl rfl⟩, fun _ => by simp⟩, by simp⟩
+      exact ⟨⟨fun _ => ms.2.2 rfl, fun _ => by simp⟩, by simp⟩
     | true =>
       simp only []
       have hst : st.fired = [] := ms.2.1 rfl
@@ -131,22 +108,20 @@ theorem fault_gives_diag_partial (plan : Plan) (sched : Schedule) (disk : Disk) 
         cases ok2 with
         | false =>
           simp only []
-          obtain ⟨k, hk⟩ := ws.2 rfl
-          exact ⟨⟨fun _ => ⟨_, hk, Or.inr rfl⟩, fun _ => by simp⟩, by simp⟩
+          exact ⟨⟨fun _ => ws.2 rfl, fun _ => by simp⟩, by simp⟩
         | true =>
           simp only []
           refine ⟨⟨fun h => by simp at h, fun ⟨f, hf', hk⟩ => ?_⟩, by simp⟩
           exfalso
-          rcases ws.1 rfl f hf' with h' | h' | h'
+          rcases ws.1 rfl f hf' with h' | h'
           · rw [hst] at h'; simp at h'
-          · rcases hk with hk | hk <;> rw [h'] at hk <;> cases hk
-          · rcases hk with hk | hk <;> rw [h'] at hk <;> cases hk
+          · exact hk h'
 
 /-- non-vacuity: the second `fopen` fails → exit 1, diagnostic, one file stays behind -/
 example : run plan2 (single .open 2 .fail) {} =
-    ⟨1, true, { dirs := ["out", "out/s", "out/s/schema", "out/s/types", "out/s/messages"],
-                files := [("out/s/types/T.hpp", [1, 2, 3, 4])] }, [(.open, 2)]⟩ := by decide +kernel
-example : run plan2 (single .mkdir 3 .fail) {} = ⟨1, true, { dirs := ["out", "out/s"] }, [(.mkdir, 3)]⟩ := by
+    ⟨1, true, { dirs := allDirs, files := [("out/s/types/T.hpp", [1, 2, 3, 4])] }, [(.open, 2, .fail)]⟩ := by
+  decide +kernel
+example : run plan2 (single .mkdir 3 .fail) {} = ⟨1, true, { dirs := ["out", "out/s"] }, [(.mkdir, 3, .fail)]⟩ := by
   decide +kernel
 
 /-! ## re-running; the output is a function of the plan -/
@@ -166,8 +141,8 @@ theorem run_clean (plan : Plan) (disk : Disk) (hnd : (paths plan.files).Nodup) :
     simp only []
     cases hf : writeFiles noFaults plan.files st with
     | mk ok2 st' =>
-      have hok2 := writeFiles_noFault noFaults (fun _ => rfl) plan.files st
-      have wc := writeFiles_complete noFaults (fun _ => rfl) plan.files st hnd hok2
+      have hok2 := writeFiles_noFault noFaults (fun _ => rfl) (fun _ => rfl) (fun _ => rfl) plan.files st
+      have wc := writeFiles_complete noFaults plan.files st hnd hok2
       rw [hf] at hok2 wc
       simp only [] at hok2
       subst hok2
@@ -196,6 +171,10 @@ theorem rerun_idempotent (plan : Plan) (disk : Disk) (hnd : (paths plan.files).N
 /-- stale content is really replaced (non-vacuity: a longer old file) -/
 example : (run plan2 noFaults { dirs := plan2.dirs, files := [("out/s/s.hpp", [0, 0, 0, 0, 0, 0, 0, 0])] }).disk.get
     "out/s/s.hpp" = some [7, 8, 9] := by decide +kernel
+
+/-- a run that failed half way is repaired by the next clean run -/
+example : (run plan2 noFaults (run plan2 (single .write 1 .shortfail) {}).disk).disk.get "out/s/types/T.hpp"
+    = some [1, 2, 3, 4] := by decide +kernel
 
 /-- **output_function_of_schema** (model part): the generated files depend on
     the plan only — not on what the output directory contained, nor on anything
